@@ -11,8 +11,11 @@ from ..core import MachineryFailure
 INVS = ("MeanUnbiased", "CrossUnbiased", "VarUnbiased", "PcInUnit")
 
 
+LABELS = ["CASS", "CASSL", "CASSLG", "CASSLGQ", "C", "CASSLGQAYEQYF", "CA"]      # nested prefixes, different lengths
+
+
 def sample_with_counts(n, rng):
-    x = [f"v{i}" for i, c in enumerate(n) for _ in range(c)]
+    x = [LABELS[i % len(LABELS)] + ("" if i < len(LABELS) else str(i)) for i, c in enumerate(n) for _ in range(c)]
     rng.shuffle(x)
     return x
 
@@ -55,11 +58,13 @@ def judge(ctx, kind, n, m, res, rp):
         x = sample_with_counts(n, ctx.rng)
         check(ctx, f"stdpc(sample with counts {n})", lambda: prs.stdpc(x), res["var"], "stdpc", rp, sqrt=True)
     if kind == "cross":
-        x = [f"v{i}" for i, c in enumerate(n) for _ in range(c)]
-        y = [f"v{i}" for i, c in enumerate(m) for _ in range(c)]
+        lab = lambda i: LABELS[i % len(LABELS)] + ("" if i < len(LABELS) else str(i))     # noqa: E731
+        x = [lab(i) for i, c in enumerate(n) for _ in range(c)]
+        y = [lab(i) for i, c in enumerate(m) for _ in range(c)]
         ctx.rng.shuffle(x)
         ctx.rng.shuffle(y)
         check(ctx, f"pc(sample {n}, sample {m})", lambda: prs.pc(x, y), res["pc"], "pc/two", rp)
+        check(ctx, f"pc(np.array sample {m}, np.array sample {n})", lambda: prs.pc(np.array(y), np.array(x)), res["pc"], "pc/two/ndarray", rp)
 
 
 def run(ctx):
